@@ -137,6 +137,32 @@ fn documents() -> Vec<Doc> {
       }
     }
   }
+  // size ladder: documents with many imports and with many toplevels (the differ works on the
+  // whole import list and the whole toplevel list)
+  for (n_imports, n_classes) in [(8usize, 1usize), (33, 1), (63, 1), (64, 1), (65, 1), (100, 1), (130, 1), (1, 33), (1, 64), (1, 65), (1, 66), (1, 130), (64, 65)] {
+    for semi in [true] {
+      for bodies_kind in ["expr"] {
+        for two in [false, true] {
+          let mut t = String::new();
+          for i in 0..n_imports {
+            t.push_str(&format!("import {{ I{i} }} from Other{}\n", if semi { ";" } else { "" }));
+          }
+          t.push('\n');
+          for c in 0..n_classes.saturating_sub(1) {
+            t.push_str(&format!("class Extra{c} {{\n  function e(): int = {c}\n}}\n\n"));
+          }
+          t.push_str("class Main {\n  function f(): int = Foo.bar()\n}\n");
+          docs.push(Doc {
+            text: t,
+            layout: format!("size-ladder imports={n_imports} toplevels={n_classes} body={bodies_kind} exporters={}", if two { 2 } else { 1 }),
+            two_exporters: two,
+            last_import_has_semicolon: Some(semi),
+            imports: n_imports,
+          });
+        }
+      }
+    }
+  }
   docs
 }
 
@@ -155,7 +181,12 @@ fn build(doc: &Doc, history: u8) -> World {
   let mut sources = HashMap::new();
   sources.insert(main, doc.text.clone());
   sources.insert(lib, LIB.to_string());
-  sources.insert(other, OTHER.to_string());
+  // `Other` also exports 130 more classes for the size-ladder documents
+  let mut other_text = OTHER.to_string();
+  for i in 0..(if doc.layout.starts_with("size-ladder") { 130 } else { 0 }) {
+    other_text.push_str(&format!("class I{i} {{ function v(): int = {i} }}\n"));
+  }
+  sources.insert(other, other_text);
   if doc.two_exporters {
     sources.insert(lib2, LIB2.to_string());
   }
